@@ -588,3 +588,9 @@ PROPS["C18"]["explanation"] += (" Props/C18MapReach.lean: the invariant MapWF (k
                                 "are preserved by apply/merge/reset_remove on arbitrary well-formed states, Map over a closed value type is closed: any nesting depth), so the Map laws hold unconditionally on derivable states of Map<K,MVReg>, "
                                 "Map<K,Orswot>, Map<K,Map<K2,MVReg>> (map_*_reach_compose/empty/idem) over logs whose nested contexts store no zero (needed: nested_op_wf_needed).")
 PROPS["C18"]["statement_coverage"] = "full statement proved for VClock, GCounter, PNCounter, MVReg, Orswot and Map (any lawful value type / nesting depth), for all well-formed states, and every derivable state is well-formed (*_reach_wf)"
+
+# nested-read oracle for Map<_,Orswot> (spec fields nm0..nm2 printed by the driver inside the causal op-only region, C05.nested_orswot_witnesses)
+for _pid in ("C01", "C05", "C08", "C09", "C20", "C03", "C07"):
+    PROPS[_pid]["oracle_fields"] = PROPS[_pid]["oracle_fields"] + ["nm0", "nm1", "nm2"]
+PROPS["C05"]["explanation"] += (" Oracle for nested contents: for Map<_,Orswot> replicas whose history stayed inside the proved region (causal op-only delivery, well-formed log; tracked by the driver) the driver prints the "
+                                "nested members and their remove contexts predicted by E2 from the knowledge set (fields nm0..nm2) and the implementation is compared with them after every command.")
